@@ -382,6 +382,13 @@ def load_known_findings():
     return json.load(open(p))
 
 
+MAX_FAILING_INPUTS = 12
+
+
+class StopCheck(BaseException):
+    """raised to end the exploration early: enough failing inputs, or the time limit of the tier was reached"""
+
+
 class Report:
     """Collects what a check run did and turns it into exit code, VIOLATION lines and evidence."""
 
@@ -429,6 +436,9 @@ class Report:
                     self.known_seen.append({'tag': tag, 'what': k.get('what', ''), 'example': payload})
                 return False
         self.violations.append({'kind': kind, 'payload': payload, 'no_input': no_input, 'tag': tag})
+        if sum(1 for v in self.violations if not v['no_input']) >= MAX_FAILING_INPUTS:
+            # the property is refuted many times over: stop exploring (a broken tree can make every further call slow)
+            raise StopCheck()
         return True
 
     def finish(self, level='proof'):
